@@ -4,7 +4,9 @@
   (`Cli.Proc`) writing to a fixed `Cli.Dest`, `out.Write(nil)` as `Proc.write dest []` and
   `io.Copy(out, r)` as `Proc.writeNE dest` of the bytes the payload releases (failing after them if
   the payload is damaged), the translated function returns exactly when the model's `execute` reaches
-  `finish`, with the model's final state — and ends the process exactly where the model exits 1.
+  `finish`, with the model's final state — and otherwise ends the process at the exit site (2: the
+  empty write failed, 3: the copy failed or the payload is damaged; no other fault) where the model
+  exits 1, the model's result being the state that write left.
   So the C15 theorems about `execute` on the decrypting side (nothing is created when the header is
   refused, what is left behind by a payload failure is a prefix, exit 0 iff delivered) speak about
   the order of calls in the source.
@@ -26,29 +28,49 @@ def mCopy (eW : Go.Err) (dest : Dest) (data : Bytes) (damaged : Bool) (p : Proc)
   let x := p.writeNE dest data
   .ok (Int.ofNat data.length, if x.2 && !damaged then none else some eW, x.1)
 
+/-- The translated `decrypt` against `Cli.execute`, outcome by outcome. `r1` is the first, empty write (the one that makes
+    the lazy opener create the file), `r2` the copy of the bytes the payload releases, from the state `r1` leaves.
+    * it RETURNS only if both writes succeeded and the payload was whole, with exactly the state `r2.1`, and the model's
+      result is `finish` of that state;
+    * otherwise the fault is one of the two exit sites after `age.Decrypt` and nothing else (no index fault, no other
+      panic number): site 2 (`errorf` after `out.Write(nil)`) exactly when the empty write failed, the model's result
+      then being the state that write left, with status 1; site 3 (`errorf` after `io.Copy`) when the empty write
+      succeeded and the copy failed or the payload is damaged after the released bytes, the model's result then being
+      the state after the copy — the released prefix, as far as the destination took it — with status 1. -/
 theorem cli_decrypt_refines {ι : Type} (eW : Go.Err) (dest : Dest) (pt : Bytes) (fa : Option Nat) (ids : List ι) (inp : Bytes)
     (w : World) (hm : mangled inp = false) (ha : armored inp = false) :
+    let data : Bytes := match fa with | none => pt | some n => pt.take n
+    let r1 := ({ w := w } : Proc).write dest []
+    let r2 := r1.1.writeNE dest data
     match main_decrypt (fun b => pure b) (fun _ (_ : List ι) => .ok (pt, none)) (mWrite eW dest)
-        (mCopy eW dest (match fa with | none => pt | some n => pt.take n) fa.isSome) ids inp ({ w := w } : Proc) with
-    | .ok p' => execute dest (.dec (.ok pt fa)) w = p'.finish dest
-    | .error _ => (execute dest (.dec (.ok pt fa)) w).exit = 1 := by
+        (mCopy eW dest data fa.isSome) ids inp ({ w := w } : Proc) with
+    | .ok p' => p' = r2.1 ∧ r1.2 = true ∧ r2.2 = true ∧ fa = none ∧ execute dest (.dec (.ok pt fa)) w = p'.finish dest
+    | .error f =>
+      (f = .panic 1002 ∧ r1.2 = false ∧ execute dest (.dec (.ok pt fa)) w = r1.1.result 1) ∨
+      (f = .panic 1003 ∧ r1.2 = true ∧ (r2.2 = false ∨ fa.isSome = true) ∧
+        execute dest (.dec (.ok pt fa)) w = r2.1.result 1) := by
+  intro data r1 r2
   rw [cli_decrypt_tie]
   simp only [hm, ha, Bool.false_eq_true, if_false, bind, Except.bind, pure, Except.pure, mWrite, mCopy, execute,
     bne_self_eq_false]
-  cases h1 : Proc.write dest ({ w := w } : Proc) [] with
-  | mk p1 ok1 =>
-    cases ok1 with
-    | false => simp [Proc.result]
-    | true =>
-      simp only [if_true, bne_self_eq_false, Bool.false_eq_true, if_false, Bool.not_true]
-      cases h2 : Proc.writeNE dest p1 (match fa with | none => pt | some n => pt.take n) with
-      | mk p2 ok2 =>
-        cases ok2 with
-        | false => simp [Proc.result]
-        | true =>
-          cases fa with
-          | none => simp
-          | some n => simp [Proc.result]
+  show match (if ((if r1.2 = true then none else some eW) != none) = true then Except.error (Go.Fault.panic 1002)
+        else if ((if (r2.2 && !fa.isSome) = true then none else some eW) != none) = true then
+          Except.error (Go.Fault.panic 1003) else Except.ok r2.1 : Go.M Proc) with
+    | .ok p' => p' = r2.1 ∧ r1.2 = true ∧ r2.2 = true ∧ fa = none ∧
+        (if (!r1.2) = true then r1.1.result 1 else if (!r2.2) = true then r2.1.result 1
+          else if fa.isSome = true then r2.1.result 1 else r2.1.finish dest) = p'.finish dest
+    | .error f =>
+      (f = .panic 1002 ∧ r1.2 = false ∧
+        (if (!r1.2) = true then r1.1.result 1 else if (!r2.2) = true then r2.1.result 1
+          else if fa.isSome = true then r2.1.result 1 else r2.1.finish dest) = r1.1.result 1) ∨
+      (f = .panic 1003 ∧ r1.2 = true ∧ (r2.2 = false ∨ fa.isSome = true) ∧
+        (if (!r1.2) = true then r1.1.result 1 else if (!r2.2) = true then r2.1.result 1
+          else if fa.isSome = true then r2.1.result 1 else r2.1.finish dest) = r2.1.result 1)
+  generalize r2 = x2
+  generalize r1 = x1
+  obtain ⟨p1, ok1⟩ := x1
+  obtain ⟨p2, ok2⟩ := x2
+  cases ok1 <;> cases ok2 <;> cases fa <;> simp
 
 /-- a header that is refused: the translated `decrypt` ends the process before any write — the model's `execute` exits 1
     with the world untouched -/
